@@ -162,6 +162,7 @@ func cmdCheck(args []string) int {
 	logSMT := fs.Bool("log-smt", false, "keep solver transcripts under out/<prop>/smt")
 	noReplay := fs.Bool("no-replay", false, "skip native replay of counterexamples")
 	nwit := fs.Int("witnesses", 8, "per-obligation witness inputs replayed natively (translator validation); 0 disables")
+	maxPaths := fs.Int("maxpaths", 0, "override the path limit (profiling)")
 	noEvidence := fs.Bool("no-evidence", false, "do not write the evidence file")
 	var prop string
 	if len(args) > 0 && !strings.HasPrefix(args[0], "-") {
@@ -251,6 +252,9 @@ func cmdCheck(args []string) int {
 		cfg.Thorough = *tier == "thorough"
 		cfg.MaxDecisions = o.IntOpt("decisions", cfg.MaxDecisions)
 		cfg.MaxPaths = o.IntOpt("paths", cfg.MaxPaths)
+		if *maxPaths > 0 {
+			cfg.MaxPaths = *maxPaths
+		}
 		cfg.MaxSliceLen = o.IntOpt("slicelen", cfg.MaxSliceLen)
 		cfg.MaxPermute = o.IntOpt("permute", cfg.MaxPermute)
 		cfg.MaxBigBytes = o.IntOpt("bigbytes", 4)
@@ -274,6 +278,8 @@ func cmdCheck(args []string) int {
 			cfg.Witnesses = 64
 		}
 		cfg.ExactNonlinear = o.Opts["exact"] == "1"
+		cfg.AssertTag = prop
+		cfg.NoMerge = o.Opts["merge"] == "off" || os.Getenv("VERIF_NOMERGE") != ""
 		cfg.ProfileForks = os.Getenv("VERIF_FORKS") != ""
 		if *logSMT {
 			cfg.LogDir = filepath.Join(outDir, "smt")
@@ -413,6 +419,15 @@ func cmdCheck(args []string) int {
 		if len(samples) < 12 {
 			samples = append(samples, map[string]interface{}{"obligation": o.ID, "harness": ev.Harness, "paths": R.Paths, "example_paths": R.SamplePaths})
 		}
+		if os.Getenv("VERIF_FORKS") != "" {
+			sx.QueryKinds.Range(func(k, v interface{}) bool {
+				fmt.Printf("   queries %-16s %d\n", k, *(v.(*int64)))
+				return true
+			})
+		}
+		if os.Getenv("VERIF_DEBUG") != "" || os.Getenv("VERIF_FORKS") != "" {
+			fmt.Printf("   merges: attempted=%d merged=%d aborted=%d\n", R.MergeStats[0], R.MergeStats[1], R.MergeStats[2])
+		}
 		fmt.Printf("%-8s %-22s paths=%d ok=%d infeasible=%d inconclusive=%d asserts=%d/%d(+%d const) sat/unsat/unk=%d/%d/%d solver=%.1fs wall=%.1fs\n",
 			o.ID, verdict, R.Paths, R.OK, R.Infeasible, R.Inconclusive, R.AssertsDischarged, R.AssertsChecked, R.AssertsConst, R.Sat, R.Unsat, R.Unknown, R.SolverSecs, R.WallSecs)
 		if len(R.ForkSites) > 0 {
@@ -426,7 +441,7 @@ func cmdCheck(args []string) int {
 			}
 			sort.Slice(l, func(i, j int) bool { return l[i].v > l[j].v })
 			for i, x := range l {
-				if i >= 25 {
+				if i >= 25 && os.Getenv("VERIF_FORKS") != "all" {
 					break
 				}
 				fmt.Printf("   forks %6d  %s\n", x.v, x.k)
